@@ -109,6 +109,7 @@ def run(rep, tier):
     streaming_cases(rep, svh, rng, 6 if quick else 80, quick)
     m2d_cli(rep, svh, rng, gates, names, 30 if quick else 300, quick)
     without_feedback_cases(rep, svh, rng, gates, names, 200 if quick else 3000, quick)
+    wide_sparse_cases(rep, rng, quick)
     svh.close()
     rep.cov['rule'] = ('(a) random annotated circuits (noisy and noiseless, REPEAT, duplicate and far lookbacks, sparse observable ids) x '
                        'shots {1,3,65,130} x W; (b) m2d on random measurement and sweep tables incl. skip_reference_sample and appended '
@@ -430,6 +431,61 @@ def without_feedback_cases(rep, svh, rng, gates, names, count, quick):
         os.unlink(os.path.join(core.BUILD, 'c04_nofb_%d.stim' % os.getpid()))
     except OSError:
         pass
+
+
+def wide_sparse_cases(rep, rng, quick):
+    """several hundred detectors of which a few fire, the gaps between them aligned with bytes and with the 255-zero run of r8:
+    every output format of `stim detect` must carry exactly the declared bits (dense and sparse encodings, long runs of zeros)"""
+    N = 300
+    patterns = [[], [0, 256], [8, 264], [0, 255], [0, 256, 267], [16, 272, 299], [7, 263], [255], [256], [0, 8, 264, 272], [40, 296],
+                [1, 257], [24, 279, 280], [299]]
+    for _ in range(2 if quick else 30):
+        a = 8 * rng.randrange(0, 5)
+        patterns.append(sorted(set([a, a + 256] + rng.sample(range(N), rng.choice([0, 1, 3])))))
+    for pat in patterns:
+        pat = [q for q in pat if q < N]
+        lines = ['R ' + ' '.join(map(str, range(N)))]
+        if pat:
+            lines.append('X_ERROR(1) ' + ' '.join(map(str, pat)))
+        lines.append('M ' + ' '.join(map(str, range(N))))
+        lines += ['DETECTOR rec[-%d]' % (N - k) for k in range(N)]
+        lines.append('OBSERVABLE_INCLUDE(0) rec[-%d]' % (N - (pat[0] if pat else 0)))
+        lines.append('OBSERVABLE_INCLUDE(2) rec[-1]')
+        text = '\n'.join(lines)
+        want_d = ''.join('1' if k in pat else '0' for k in range(N))
+        want_o = ('1' if pat else '0') + '0' + ('1' if (N - 1) in pat else '0')
+        shots = rng.choice([1, 2, 64])
+        for fmt in FORMATS:
+            if fmt == 'ptb64' and shots % 64:
+                continue
+            for variant in ('append', 'plain', 'prepend'):
+                if variant == 'prepend' and fmt == 'dets':
+                    continue
+                args = ['detect', '--shots', str(shots), '--out_format', fmt] + ({'append': ['--append_observables'], 'prepend': ['--prepend_observables'], 'plain': []}[variant])
+                rc, so, se = core.run_stim(args, text.encode())
+                rep.count(('c04-wide', tuple(pat), shots, fmt, variant), nontrivial=len(pat) >= 2)
+                cell = {'command': 'stim ' + ' '.join(args), 'fired_detectors': pat, 'num_detectors': N}
+                if rc != 0:
+                    rep.violation('stim detect', 'reject-valid', cell, se.decode()[-300:])
+                    continue
+                try:
+                    if variant == 'plain' and fmt == 'dets':
+                        got = decode(fmt, so, N, 3, 'append')         # the dets format names observables itself (L entries)
+                        exp = [(want_d, want_o)] * shots
+                    elif variant == 'plain':
+                        got = decode(fmt, so, N, 0, 'append')
+                        exp = [(want_d, '')] * shots
+                    else:
+                        got = decode(fmt, so, N, 3, variant)
+                        exp = [(want_d, want_o)] * shots
+                except Exception as e:
+                    rep.violation('stim detect', 'wrong-result', cell, 'output cannot be decoded as %s: %s' % (fmt, e))
+                    continue
+                if got != exp:
+                    bad = next((k for k in range(min(len(got), len(exp))) if got[k] != exp[k]), None)
+                    gd = [k for k, ch in enumerate(got[bad][0]) if ch == '1'] if bad is not None else len(got)
+                    rep.violation('stim detect', 'wrong-result', cell,
+                                  'the %s output does not carry the declared detection events (detectors read back as fired: %s)' % (fmt, gd), pat, gd)
 
 
 def decode(fmt, data, nd, no, layout):
